@@ -185,6 +185,43 @@ func Canonicalize(pkgs []*packages.Package, reload func(map[string][]byte) ([]*p
 			}
 		}
 	}
+	// stage 2b: a known one-parameter function that became a parameterless method reading that argument from a field
+	// of its receiver (`findResultKeys(dn.results)` -> `dn.resultKeys()`) is given its known form again
+	currentOverlay = cn.Overlay
+	for _, compute := range []func([]*packages.Package) (map[string][]renameEdit, []string){computeReceiverFieldBacks, computeFieldsToReceiverBacks} {
+		edits, notes := compute(pkgs)
+		if len(edits) == 0 || reload == nil {
+			continue
+		}
+		currentOverlay = cn.Overlay
+		ov := map[string][]byte{}
+		for f, b := range cn.Overlay {
+			ov[f] = b
+		}
+		okRead := true
+		for f, es := range edits {
+			src, have := cn.Overlay[f]
+			if !have {
+				var err error
+				if src, err = os.ReadFile(f); err != nil {
+					okRead = false
+					break
+				}
+			}
+			ov[f] = applyEdits(src, es)
+		}
+		if okRead {
+			if np, err := reload(ov); err == nil {
+				pkgs = np
+				for f, b := range ov {
+					cn.Overlay[f] = b
+				}
+				cn.Notes = append(cn.Notes, notes...)
+			} else {
+				cn.Notes = append(cn.Notes, fmt.Sprintf("moving arguments between the receiver and the parameter list was abandoned (the rewritten program does not type-check: %v)", err))
+			}
+		}
+	}
 	// third stage: a local closure that is only ever called (`f := func(..){..}` ... `f(x)`) is what a helper
 	// function looks like when it is kept inside its only user: its calls are replaced by the literal itself,
 	// which the unwrapping step then turns into plain statements
@@ -2128,6 +2165,532 @@ func computeSignatureBacks(pkgs []*packages.Package) (map[string][]renameEdit, [
 				edits[e.file] = append(edits[e.file], e)
 			}
 			notes = append(notes, fmt.Sprintf("%s is the known %s with another receiver/parameter arrangement: declaration and %d call(s) rewritten to the known signature", u, m, handled))
+		}
+	}
+	return edits, notes
+}
+
+// computeReceiverFieldBacks: a known FUNCTION f(T) R of a package is missing, and exactly one new METHOD without
+// parameters and with the same results R exists whose receiver is (a pointer to) a struct, is mentioned in the
+// method's body only as `recv.fld` for ONE field fld, and that field has type T: the argument moved into the
+// receiver. The declaration becomes `func f(<known parameter name> T) R` with every `recv.fld` replaced by the
+// parameter, and every call `x.m()` becomes `f(x.fld)`; x must be a plain expression. The method must not be used
+// as a method value, through an interface, or from another package.
+func computeReceiverFieldBacks(pkgs []*packages.Package) (map[string][]renameEdit, []string) {
+	edits := map[string][]renameEdit{}
+	var notes []string
+	q := func(p *types.Package) string { return p.Path() }
+	for _, pk := range pkgs {
+		if !analysedPkg(pk.PkgPath) {
+			continue
+		}
+		prefix := strings.ReplaceAll(pk.PkgPath, ModPath, "dig")
+		decl := map[string]*types.Func{}
+		declAST := map[string]*ast.FuncDecl{}
+		for _, f := range pk.Syntax {
+			for _, d := range f.Decls {
+				if fd, ok := d.(*ast.FuncDecl); ok {
+					if o, ok := pk.TypesInfo.Defs[fd.Name].(*types.Func); ok {
+						decl[shortFuncName(o)] = o
+						declAST[shortFuncName(o)] = fd
+					}
+				}
+			}
+		}
+		var missing []string
+		for n := range knownFuncs {
+			if knownPkgOf(n) == prefix && !strings.HasPrefix(n, "(") {
+				if _, ok := decl[n]; !ok {
+					missing = append(missing, n)
+				}
+			}
+		}
+		sort.Strings(missing)
+		for _, m := range missing {
+			ks := knownFuncs[m]
+			i := strings.Index(ks, " -> ")
+			if i < 2 || strings.Contains(ks[:i], "...") {
+				continue
+			}
+			kp := splitTop(ks[1 : i-1])
+			if len(kp) != 1 {
+				continue
+			}
+			type cand struct {
+				name string
+				fld  *types.Var
+			}
+			var cands []cand
+			for u, o := range decl {
+				if _, known := knownFuncs[u]; known {
+					continue
+				}
+				sig := o.Type().(*types.Signature)
+				if sig.Recv() == nil || sig.Params().Len() != 0 || sig.Variadic() {
+					continue
+				}
+				cs := SigKey(o)
+				j := strings.Index(cs, " -> ")
+				if j < 0 || cs[j:] != ks[i:] {
+					continue
+				}
+				fd := declAST[u]
+				if fd.Body == nil || fd.Recv == nil || len(fd.Recv.List) != 1 || len(fd.Recv.List[0].Names) != 1 {
+					continue
+				}
+				recvObj := pk.TypesInfo.Defs[fd.Recv.List[0].Names[0]]
+				if recvObj == nil {
+					continue
+				}
+				// every use of the receiver is `recv.fld` for one field of the wanted type
+				var fld *types.Var
+				okUses := true
+				parents := map[*ast.Ident]*ast.SelectorExpr{}
+				ast.Inspect(fd.Body, func(n ast.Node) bool {
+					if se, ok := n.(*ast.SelectorExpr); ok {
+						if id, ok := se.X.(*ast.Ident); ok {
+							parents[id] = se
+						}
+					}
+					return true
+				})
+				nUses := 0
+				ast.Inspect(fd.Body, func(n ast.Node) bool {
+					id, ok := n.(*ast.Ident)
+					if !ok || pk.TypesInfo.Uses[id] != recvObj {
+						return true
+					}
+					nUses++
+					se := parents[id]
+					if se == nil {
+						okUses = false
+						return true
+					}
+					v, isVar := pk.TypesInfo.Uses[se.Sel].(*types.Var)
+					if !isVar || !v.IsField() || (fld != nil && fld != v) {
+						okUses = false
+						return true
+					}
+					fld = v
+					return true
+				})
+				if !okUses || fld == nil || nUses == 0 || types.TypeString(fld.Type(), q) != kp[0] {
+					continue
+				}
+				cands = append(cands, cand{u, fld})
+			}
+			if len(cands) != 1 {
+				continue
+			}
+			u, fld := cands[0].name, cands[0].fld
+			fd := declAST[u]
+			file := pk.Fset.Position(fd.Pos()).Filename
+			src, err := os.ReadFile(file)
+			if b, ok := currentOverlay[file]; ok {
+				src, err = b, nil
+			}
+			if err != nil {
+				continue
+			}
+			pname := "arg0"
+			if ns, ok := frozenParamNames[m]; ok && len(ns) == 1 && ns[0] != "" && ns[0] != "_" {
+				pname = ns[0]
+			}
+			// the parameter name must be free in the body
+			clash := false
+			ast.Inspect(fd.Body, func(n ast.Node) bool {
+				if id, ok := n.(*ast.Ident); ok && id.Name == pname {
+					if _, isSel := pk.TypesInfo.Uses[id].(*types.Var); isSel || pk.TypesInfo.Defs[id] != nil {
+						if v, ok := pk.TypesInfo.Uses[id].(*types.Var); !(ok && v.IsField()) {
+							clash = true
+						}
+					}
+				}
+				return true
+			})
+			if clash {
+				continue
+			}
+			base := m[strings.LastIndex(m, ".")+1:]
+			recvObj := pk.TypesInfo.Defs[fd.Recv.List[0].Names[0]]
+			typText := types.TypeString(fld.Type(), func(p *types.Package) string {
+				if p == pk.Types {
+					return ""
+				}
+				return p.Name()
+			})
+			var es []renameEdit
+			es = append(es, renameEdit{file: file, off: pk.Fset.Position(fd.Pos()).Offset, end: pk.Fset.Position(fd.Type.Params.End()).Offset, text: "func " + base + "(" + pname + " " + typText + ")"})
+			ast.Inspect(fd.Body, func(n ast.Node) bool {
+				se, ok := n.(*ast.SelectorExpr)
+				if !ok {
+					return true
+				}
+				if id, ok := se.X.(*ast.Ident); ok && pk.TypesInfo.Uses[id] == recvObj {
+					es = append(es, renameEdit{file: file, off: pk.Fset.Position(se.Pos()).Offset, end: pk.Fset.Position(se.End()).Offset, text: pname})
+					return false
+				}
+				return true
+			})
+			_ = src
+			obj := decl[u]
+			uses := map[*ast.Ident]bool{}
+			for id, o := range pk.TypesInfo.Uses {
+				if o == obj {
+					uses[id] = true
+				}
+			}
+			okCalls := true
+			for _, p2 := range pkgs {
+				if p2 != pk {
+					for _, o := range p2.TypesInfo.Uses {
+						if o == obj {
+							okCalls = false
+						}
+					}
+				}
+			}
+			handled := 0
+			for _, f := range pk.Syntax {
+				fname := pk.Fset.Position(f.Pos()).Filename
+				fsrc, err := os.ReadFile(fname)
+				if b, ok := currentOverlay[fname]; ok {
+					fsrc, err = b, nil
+				}
+				if err != nil {
+					okCalls = false
+					break
+				}
+				ast.Inspect(f, func(n ast.Node) bool {
+					call, ok := n.(*ast.CallExpr)
+					if !ok {
+						return true
+					}
+					se, ok := call.Fun.(*ast.SelectorExpr)
+					if !ok || !uses[se.Sel] {
+						return true
+					}
+					handled++
+					if len(call.Args) != 0 || !plainExpr(se.X) {
+						okCalls = false
+						return true
+					}
+					x := string(fsrc[pk.Fset.Position(se.X.Pos()).Offset:pk.Fset.Position(se.X.End()).Offset])
+					es = append(es, renameEdit{file: fname, off: pk.Fset.Position(call.Pos()).Offset, end: pk.Fset.Position(call.End()).Offset, text: base + "(" + x + "." + fld.Name() + ")"})
+					return true
+				})
+			}
+			if !okCalls || handled != len(uses) || handled == 0 {
+				continue
+			}
+			for _, e := range es {
+				edits[e.file] = append(edits[e.file], e)
+			}
+			notes = append(notes, fmt.Sprintf("method %s is the known function %s with its argument read from the receiver field %s: declaration and %d call(s) rewritten to the known form", u, m, fld.Name(), handled))
+		}
+	}
+	return edits, notes
+}
+
+// computeFieldsToReceiverBacks is the mirror image: a known METHOD (X).m(P...) R is missing and exactly one new
+// FUNCTION of the same name exists whose parameters are P... plus, for some fields of the struct X, one parameter of
+// that field's type each (X has exactly one field of each of those types): the receiver was unbundled into the
+// fields the method used. The declaration becomes the known method, every use of an extra parameter becomes
+// `recv.fld` (the extra parameters are never assigned or have their address taken), and every call
+// `m(x.f1, x.f2, args...)` - the extra arguments being selections from ONE plain expression x - becomes `x.m(args...)`.
+func computeFieldsToReceiverBacks(pkgs []*packages.Package) (map[string][]renameEdit, []string) {
+	edits := map[string][]renameEdit{}
+	var notes []string
+	q := func(p *types.Package) string { return p.Path() }
+	for _, pk := range pkgs {
+		if !analysedPkg(pk.PkgPath) {
+			continue
+		}
+		prefix := strings.ReplaceAll(pk.PkgPath, ModPath, "dig")
+		decl := map[string]*types.Func{}
+		declAST := map[string]*ast.FuncDecl{}
+		for _, f := range pk.Syntax {
+			for _, d := range f.Decls {
+				if fd, ok := d.(*ast.FuncDecl); ok {
+					if o, ok := pk.TypesInfo.Defs[fd.Name].(*types.Func); ok {
+						decl[shortFuncName(o)] = o
+						declAST[shortFuncName(o)] = fd
+					}
+				}
+			}
+		}
+		var missing []string
+		for n := range knownFuncs {
+			if knownPkgOf(n) == prefix && strings.HasPrefix(n, "(") {
+				if _, ok := decl[n]; !ok {
+					missing = append(missing, n)
+				}
+			}
+		}
+		sort.Strings(missing)
+		for _, m := range missing {
+			ks := knownFuncs[m]
+			i := strings.Index(ks, " -> ")
+			if i < 2 || strings.Contains(ks[:i], "...") {
+				continue
+			}
+			kp := splitTop(ks[1 : i-1]) // receiver type first
+			base := m[strings.LastIndex(m, ".")+1:]
+			u := prefix + "." + base
+			o, have := decl[u]
+			if _, known := knownFuncs[u]; !have || known {
+				continue
+			}
+			sig := o.Type().(*types.Signature)
+			if sig.Recv() != nil || sig.Variadic() {
+				continue
+			}
+			cs := SigKey(o)
+			j := strings.Index(cs, " -> ")
+			if j < 0 || cs[j:] != ks[i:] {
+				continue
+			}
+			// the receiver type among the types of the package
+			var recvT types.Type
+			sc := pk.Types.Scope()
+			for _, nm := range sc.Names() {
+				if tn, ok := sc.Lookup(nm).(*types.TypeName); ok {
+					if types.TypeString(tn.Type(), q) == kp[0] {
+						recvT = tn.Type()
+					} else if types.TypeString(types.NewPointer(tn.Type()), q) == kp[0] {
+						recvT = types.NewPointer(tn.Type())
+					}
+				}
+			}
+			if recvT == nil {
+				continue
+			}
+			under := recvT
+			if pt, ok := under.(*types.Pointer); ok {
+				under = pt.Elem()
+			}
+			st, ok := under.Underlying().(*types.Struct)
+			if !ok {
+				continue
+			}
+			fieldOfType := map[string]*types.Var{}
+			dupType := map[string]bool{}
+			for k := 0; k < st.NumFields(); k++ {
+				t := types.TypeString(st.Field(k).Type(), q)
+				if fieldOfType[t] != nil {
+					dupType[t] = true
+				}
+				fieldOfType[t] = st.Field(k)
+			}
+			// match the function's parameters: each known parameter type once (pairwise distinct), the rest fields
+			fd := declAST[u]
+			type fl struct {
+				name string
+				obj  types.Object
+				typ  string
+			}
+			var flat []fl
+			for _, f := range fd.Type.Params.List {
+				for _, nm := range f.Names {
+					ob := pk.TypesInfo.Defs[nm]
+					if ob == nil {
+						continue
+					}
+					flat = append(flat, fl{nm.Name, ob, types.TypeString(ob.Type(), q)})
+				}
+			}
+			if len(flat) != sig.Params().Len() || len(flat) <= len(kp)-1 {
+				continue
+			}
+			want := kp[1:]
+			pos := make([]int, len(want))
+			used := map[int]bool{}
+			okMatch := true
+			seenT := map[string]bool{}
+			for a, t := range want {
+				if seenT[t] {
+					okMatch = false
+				}
+				seenT[t] = true
+				pos[a] = -1
+				for b := len(flat) - 1; b >= 0; b-- {
+					if flat[b].typ == t && !used[b] {
+						pos[a] = b
+						break
+					}
+				}
+				if pos[a] < 0 {
+					okMatch = false
+				} else {
+					used[pos[a]] = true
+				}
+			}
+			if !okMatch {
+				continue
+			}
+			extra := map[types.Object]*types.Var{}
+			extraIdx := map[int]*types.Var{}
+			usedField := map[*types.Var]bool{}
+			for b, f := range flat {
+				if used[b] {
+					continue
+				}
+				fv := fieldOfType[f.typ]
+				if fv == nil || dupType[f.typ] || seenT[f.typ] || usedField[fv] || f.name == "_" {
+					okMatch = false
+					break
+				}
+				usedField[fv] = true
+				extra[f.obj] = fv
+				extraIdx[b] = fv
+			}
+			if !okMatch || len(extra) == 0 || fd.Body == nil {
+				continue
+			}
+			rname := "recv0"
+			if ns, ok := frozenParamNames[m]; ok && len(ns) > 0 && ns[0] != "" && ns[0] != "_" {
+				rname = ns[0]
+			}
+			clash := false
+			ast.Inspect(fd, func(n ast.Node) bool {
+				if id, ok := n.(*ast.Ident); ok && id.Name == rname {
+					clash = true
+				}
+				return true
+			})
+			// the extra parameters are read only
+			ast.Inspect(fd.Body, func(n ast.Node) bool {
+				switch x := n.(type) {
+				case *ast.AssignStmt:
+					for _, l := range x.Lhs {
+						if id, ok := l.(*ast.Ident); ok && extra[pk.TypesInfo.Uses[id]] != nil {
+							clash = true
+						}
+					}
+				case *ast.UnaryExpr:
+					if id, ok := x.X.(*ast.Ident); ok && x.Op == token.AND && extra[pk.TypesInfo.Uses[id]] != nil {
+						clash = true
+					}
+				case *ast.IncDecStmt:
+					if id, ok := x.X.(*ast.Ident); ok && extra[pk.TypesInfo.Uses[id]] != nil {
+						clash = true
+					}
+				}
+				return true
+			})
+			if clash {
+				continue
+			}
+			file := pk.Fset.Position(fd.Pos()).Filename
+			local := func(t types.Type) string {
+				return types.TypeString(t, func(p *types.Package) string {
+					if p == pk.Types {
+						return ""
+					}
+					return p.Name()
+				})
+			}
+			var hdr strings.Builder
+			hdr.WriteString("func (" + rname + " " + local(recvT) + ") " + base + "(")
+			for a := range want {
+				if a > 0 {
+					hdr.WriteString(", ")
+				}
+				hdr.WriteString(flat[pos[a]].name + " " + local(flat[pos[a]].obj.Type()))
+			}
+			hdr.WriteString(")")
+			var es []renameEdit
+			es = append(es, renameEdit{file: file, off: pk.Fset.Position(fd.Pos()).Offset, end: pk.Fset.Position(fd.Type.Params.End()).Offset, text: hdr.String()})
+			ast.Inspect(fd.Body, func(n ast.Node) bool {
+				if id, ok := n.(*ast.Ident); ok {
+					if fv := extra[pk.TypesInfo.Uses[id]]; fv != nil {
+						es = append(es, renameEdit{file: file, off: pk.Fset.Position(id.Pos()).Offset, end: pk.Fset.Position(id.End()).Offset, text: rname + "." + fv.Name()})
+					}
+				}
+				return true
+			})
+			uses := map[*ast.Ident]bool{}
+			for id, ob := range pk.TypesInfo.Uses {
+				if ob == types.Object(o) {
+					uses[id] = true
+				}
+			}
+			okCalls := true
+			for _, p2 := range pkgs {
+				if p2 != pk {
+					for _, ob := range p2.TypesInfo.Uses {
+						if ob == types.Object(o) {
+							okCalls = false
+						}
+					}
+				}
+			}
+			handled := 0
+			for _, f := range pk.Syntax {
+				fname := pk.Fset.Position(f.Pos()).Filename
+				fsrc, err := os.ReadFile(fname)
+				if b, ok := currentOverlay[fname]; ok {
+					fsrc, err = b, nil
+				}
+				if err != nil {
+					okCalls = false
+					break
+				}
+				ftext := func(n ast.Node) string {
+					return string(fsrc[pk.Fset.Position(n.Pos()).Offset:pk.Fset.Position(n.End()).Offset])
+				}
+				ast.Inspect(f, func(n ast.Node) bool {
+					call, ok := n.(*ast.CallExpr)
+					if !ok {
+						return true
+					}
+					id, ok := call.Fun.(*ast.Ident)
+					if !ok || !uses[id] {
+						return true
+					}
+					handled++
+					if len(call.Args) != len(flat) || call.Ellipsis.IsValid() {
+						okCalls = false
+						return true
+					}
+					baseX := ""
+					for b, a := range call.Args {
+						if fv := extraIdx[b]; fv != nil {
+							se, ok := a.(*ast.SelectorExpr)
+							if !ok || se.Sel.Name != fv.Name() || !plainExpr(se.X) {
+								okCalls = false
+								return true
+							}
+							if baseX != "" && baseX != ftext(se.X) {
+								okCalls = false
+								return true
+							}
+							baseX = ftext(se.X)
+						} else if !plainExpr(a) {
+							okCalls = false
+							return true
+						}
+					}
+					var sb strings.Builder
+					sb.WriteString(baseX + "." + base + "(")
+					for a := range want {
+						if a > 0 {
+							sb.WriteString(", ")
+						}
+						sb.WriteString(ftext(call.Args[pos[a]]))
+					}
+					sb.WriteString(")")
+					es = append(es, renameEdit{file: fname, off: pk.Fset.Position(call.Pos()).Offset, end: pk.Fset.Position(call.End()).Offset, text: sb.String()})
+					return true
+				})
+			}
+			if !okCalls || handled != len(uses) || handled == 0 {
+				continue
+			}
+			for _, e := range es {
+				edits[e.file] = append(edits[e.file], e)
+			}
+			notes = append(notes, fmt.Sprintf("function %s is the known method %s with the receiver unbundled into %d of its fields: declaration and %d call(s) rewritten to the known form", u, m, len(extra), handled))
 		}
 	}
 	return edits, notes
